@@ -451,7 +451,9 @@ def save_nmeas_estimate(
         f.write(json.dumps(data, indent=2))
 
 
-def load_nmeas_estimate(filename: AnyPath) -> Tuple[float, int, np.ndarray]:
+def load_nmeas_estimate(
+    filename: AnyPath,
+) -> Tuple[float, int, Optional[np.ndarray]]:
     """Load an estimate of the number of measurements from a file.
 
     Args:
@@ -460,13 +462,16 @@ def load_nmeas_estimate(filename: AnyPath) -> Tuple[float, int, np.ndarray]:
     Returns:
         nmeas: number of measurements for epsilon = 1.0
         nterms: number of terms in the hamiltonian
-        frame_meas: frame measurements (number of measurements per group)
+        frame_meas: frame measurements (number of measurements per group), or None
+            if the estimate was saved without them
     """
 
     with open(filename, "r") as f:
         data = json.load(f)
 
-    frame_meas = convert_dict_to_array(data["frame_meas"])
+    frame_meas = (
+        convert_dict_to_array(data["frame_meas"]) if "frame_meas" in data else None
+    )
     K_coeff = data["K"]
     nterms = data["nterms"]
 
